@@ -18,6 +18,10 @@ CHECKS = {
    technique="runtime monitor: generated assembly sources (AST printed to text) assembled by asm.Parse, output decoded by an independent decoder and compared with the AST",
    text="Tens of thousands (quick) to a million (thorough) sources over every opcode, all token classes of the documented grammar, all numeric widths and batch groups are assembled; the emitted bytecode must decode to exactly the instructions written. Half of the sources contain only token classes with no recorded finding so a new break cannot hide behind a known one.",
    note="Trusted: the harness decoder and the expansion table transcribed from instructions.texi. Known findings (numeric-first lexing, upper-case initial) are listed in KNOWN_FINDINGS.txt by token class."),
+ "C13": dict(engine="pgfake", category="fault_enumeration", design="§3 C13",
+   technique="runtime monitor with fault injection: exhaustive operation sequences x every single and double failing driver primitive against an in-process transactional fake of the pgx interface; oracle over the driver call log, acknowledged-write reference map and committed map at quiescence",
+   text="All client-legal sequences up to length 4 (quick) / 5 plus 400k longer PRNG sequences (thorough), each with every choice of 0, 1 or 2 failing primitive calls (begin/exec/query/next/scan/commit): the faulted operation must report an error, no panic, fault-free operations outside a dirty transaction must succeed and return acknowledged values, every transaction must be finished by Close, and the committed map must match the acknowledged writes.",
+   note="Trusted base: pgfake's model of Postgres/pgx transaction semantics (no real Postgres offline). Dirty explicit transactions are don't-care. One recorded finding family (sticky multi mode after Stop, pinned by the repository's own test)."),
 }
 NOT_YET = {}
 ALL = ["C%02d" % i for i in range(1, 21)]
